@@ -222,6 +222,19 @@ def threaded_session(n_cmds, rng, snapshot="/repo/tests/snapshots/default.snapsh
             s.drop = None
             s.pump(int((GeckoConfig.PING_FREQUENCY_IN_SECONDS + 5) / 0.05), dt=0.05)
             commands(n_cmds - n_cmds // 2)
+            # answers to status requests get lost for a while: the blocking stack re-sends the SAME request (same
+            # number) until one gets through, and the requests that follow carry on from that number
+            n_statu0 = sum(1 for d in s.wire() if (inner(d) or b"").startswith(b"STATU"))
+            for _ in range(3):
+                s.drop = lambda data, direction: direction == "s2c" and (inner(data) or b"").startswith(b"STATV")
+                spa.refresh()
+                s.pump(int(7 / 0.05), dt=0.05)
+                s.drop = None
+                s.pump(int(6 / 0.05), dt=0.05)
+                commands(3)
+            n_statu1 = sum(1 for d in s.wire() if (inner(d) or b"").startswith(b"STATU"))
+            if n_statu1 - n_statu0 < 6:
+                raise env.MachineryError("threaded session: no status request was re-sent while its answers were lost")
         return [wire_history(s.wire(), retransmits=True)]
 
 
